@@ -169,8 +169,38 @@ def texts_after_hidden(w):
     return out
 
 
+def retain_candidates(w):
+    """(tag node with children, filter hiding its preceding sibling): candidates for detach(retain_child_nodes=True)
+    under ambient filters -- the place of the retained children must not depend on the caller's filters"""
+    out = []
+
+    def el(e):
+        i, k, dns, data, kids = e
+        prev = "text" if data[1] is not None else None
+        for c, tail in kids:
+            if c[1][0] == "tag" and (c[3][1] is not None or c[4]):
+                if prev in ("comment", "pi"):
+                    out.append((c[0], F_DEFAULT))
+                    out.append((c[0], F_TAG))
+                elif prev == "text":
+                    out.append((c[0], F_TAG))
+            prev = "text" if tail[1] is not None else c[1][0]
+            el(c)
+    for pro, root, epi in w["docs"]:
+        el(root)
+    for l in w["loose"]:
+        if l[0] == "el":
+            el(l[1])
+    return out
+
+
 def gen_targeted(real, rng, w):
-    """add_preceding_siblings(element-like) on such a text node under filters that hide its neighbour"""
+    """add_preceding_siblings(element-like) on such a text node under filters that hide its neighbour; or
+    detach(retain_child_nodes=True) on a node with children whose preceding sibling the filters hide"""
+    rc = retain_candidates(w)
+    if rc and rng.random() < 0.5:
+        x, F = rng.choice(rc)
+        return F, ("detach", x, True)
     cands = texts_after_hidden(w)
     if not cands:
         return None
@@ -499,7 +529,7 @@ def run_history(ctx, rng, n_ops, hist_no, fixed=None):
         else:
             F = F_ALL if mode < 0.7 or rng.random() < 0.5 else rng.choice([F_DEFAULT, F_DEFAULT, F_TAG])
             o = gen_op(real, rng, w, F)
-            if rng.random() < 0.1:
+            if rng.random() < 0.15:
                 tg = gen_targeted(real, rng, w)
                 if tg:
                     F, o = tg
